@@ -430,7 +430,15 @@ def conn_case(args):
         return True
 
     nops = 10 if quick else 24
+    # both sides first write across two record boundaries (2L+1 bytes), then the random schedule
+    for me in 'cs':
+        L = min(limit[me] - (1 if t13 else 0), user_c if me == 'c' else user_s)
+        n = 2 * L + 1
+        if n <= (1500 if small else 33000):
+            do_write(me, rand_bytes(rng, n))
     for _ in range(nops):
+        if res['viol']:
+            break
         me = rng.choice('cs')
         peer = 's' if me == 'c' else 'c'
         if rng.random() < 0.55:
@@ -606,7 +614,8 @@ def run(ctx):
             for etm in etms:
                 if quick:
                     picks = [(ctx.rng.choice(rsls), ctx.rng.choice(rsls), ctx.rng.choice(users), ctx.rng.choice(users)),
-                             (2 ** 14 + 1, 2 ** 14 + 1, 2 ** 14, 2 ** 14)]
+                             (2 ** 14 + 1, 2 ** 14 + 1, 2 ** 14, 2 ** 14),
+                             (ctx.rng.choice([64, 100]), ctx.rng.choice([64, 100]), 2 ** 14, 2 ** 14)]
                 else:
                     picks = [(a, b, ctx.rng.choice(users), ctx.rng.choice(users)) for a in rsls for b in rsls]
                     picks += [(2 ** 14 + 1, 2 ** 14 + 1, u, u) for u in users]
